@@ -113,6 +113,20 @@ func (e *Env) lookupVar(name string) (Value, bool) {
 		}
 		if best == nil {
 			best = bestConst
+			// several constants are bound to this name: take the binding whose
+			// position dominates the evaluation point most closely
+			var bd *ssa.DebugRef
+			for _, d := range fr.constRefs[name] {
+				if e.at != nil && !d.Block().Dominates(e.at) {
+					continue
+				}
+				if bd == nil || (bd.Block() != d.Block() && bd.Block().Dominates(d.Block())) || (bd.Block() == d.Block() && instrIndex(d) > instrIndex(bd)) {
+					bd = d
+				}
+			}
+			if bd != nil {
+				best = bd.X
+			}
 		}
 		if best != nil {
 			return e.x.value(fr, best), true
@@ -839,7 +853,7 @@ func (x *Exec) applyPredicate(sub *Env, sf *SpecFunc, actuals []Value, ptypes []
 			args = append(args, t)
 			fsorts = append(fsorts, psorts[i])
 		}
-		x.em.items = append(x.em.items, item{line: fmt.Sprintf("(declare-fun %s (%s) Bool)", def.fn, strings.Join(fsorts, " "))})
+		x.em.items = append(x.em.items, item{glob: true, line: fmt.Sprintf("(declare-fun %s (%s) Bool)", def.fn, strings.Join(fsorts, " "))})
 		// No defining axiom is emitted: the predicate is unfolded eagerly wherever
 		// it is applied ("application implies body"), and wherever it has to be
 		// proved the obligation offers the expanded body as an alternative goal.
@@ -867,7 +881,7 @@ func (x *Exec) applyPredicate(sub *Env, sf *SpecFunc, actuals []Value, ptypes []
 	if x.em.inQuant == 0 && !x.unfolded[app] {
 		x.unfolded[app] = true
 		body := x.evalBool(sub, sf.Body)
-		x.em.items = append(x.em.items, item{line: "(assert " + implies(app, body) + ")"})
+		x.em.items = append(x.em.items, item{glob: true, line: "(assert " + implies(app, body) + ")"})
 	}
 	return Scalar{T: app, Typ: boolT}
 }
